@@ -9,6 +9,8 @@ use crate::core::common::EncryptionKey;
 
 impl CipherText<V1, Local> {
     pub(crate) fn from(payload: &[u8], encryption_key: &EncryptionKey<V1, Local>) -> Self {
+        #[cfg(rusty_paseto_verif)]
+        crate::verif::emit("keystream:v1");
         let key = GenericArray::from_slice(encryption_key.as_ref());
         let nonce = GenericArray::from_slice(encryption_key.counter_nonce());
         let mut cipher = Aes256Ctr::new(key, nonce);
